@@ -124,7 +124,14 @@ static void c06Case(Rng &rng, CaseResult &r) {
 // ------------------------------------------------------------------------------------------------ C08 (a)
 static bool sameSol(const Circuit &a, const Circuit &b) { return a.cellX_ == b.cellX_ && a.cellY_ == b.cellY_ && a.cellOrientation_ == b.cellOrientation_; }
 
-static void c08PureCase(Rng &rng, CaseResult &r) {
+static std::string solHash(const Circuit &c, bool threw) {
+  uint64_t h = 1469598103934665603ull;
+  auto mixv = [&](long long v) { h = (h ^ (uint64_t)v) * 1099511628211ull; };
+  for (int i = 0; i < c.nbCells(); ++i) { mixv(c.cellX_[i]); mixv(c.cellY_[i]); mixv((int)c.cellOrientation_[i]); }
+  return (threw ? "T" : "R") + std::to_string((unsigned long long)h);
+}
+
+static void c08PureCase(uint64_t idx, Rng &rng, CaseResult &r) {
   std::string profile, pdesc, gdesc;
   int stage = (int)rng.range(0, 2);
   Circuit c0 = stage == 0 ? genGlobalCircuit(rng, profile) : genCircuit(rng, makeProfile(rng, profile = rng.pick(std::vector<std::string>{"general", "nets", "polarity", "multirow", "dense"})));
@@ -151,6 +158,7 @@ static void c08PureCase(Rng &rng, CaseResult &r) {
   bool t0, t1, t2, t3, t4;
   Circuit base = c0;
   run(base, false, t0);
+  if (r.evalOnly) { r.evalOut = solHash(base, t0); return; }
   Circuit copy = c0;          // a copy, with an observing callback
   run(copy, true, t1);
   Circuit again = c0;         // immediately again
@@ -171,6 +179,16 @@ static void c08PureCase(Rng &rng, CaseResult &r) {
     if (!sameSol(base, *heap)) r.fail("C08:result-differs-on-a-copy", std::string(sn[stage]));
   }
   delete heap;
+  // the same call in a freshly started process (this worker has already placed many other circuits)
+  {
+    std::string fresh;
+    if (vf::evalInFreshProcess("c08.pure", idx, fresh)) {
+      r.count("compared_with_a_fresh_process");
+      if (fresh != solHash(base, t0)) r.fail("C08:result-depends-on-the-history-of-the-process", std::string(sn[stage]) + ": a freshly started process computes a different result for the same circuit and parameters (this worker had run other placements before)");
+    } else {
+      r.count("fresh_process_unavailable");
+    }
+  }
   r.count(t0 ? "threw" : "returned");
   r.nontrivial = !t0 && !sameSol(base, c0);
   Features f = features(c0);
@@ -337,7 +355,7 @@ static void c08SchedCase(Rng &rng, CaseResult &r, bool light) {
 int main(int argc, char **argv) {
   std::vector<vf::Part> parts;
   parts.push_back({"c06.global", [](uint64_t, Rng &rng, CaseResult &r) { c06Case(rng, r); }, 60});
-  parts.push_back({"c08.pure", [](uint64_t, Rng &rng, CaseResult &r) { c08PureCase(rng, r); }, 120});
+  parts.push_back({"c08.pure", [](uint64_t idx, Rng &rng, CaseResult &r) { c08PureCase(idx, rng, r); }, 120});
   parts.push_back({"c08.sched", [](uint64_t, Rng &rng, CaseResult &r) { c08SchedCase(rng, r, false); }, 300});
   parts.push_back({"c08.sched.light", [](uint64_t, Rng &rng, CaseResult &r) { c08SchedCase(rng, r, true); }, 300});
   return vf::runMain(argc, argv, parts);
